@@ -148,19 +148,25 @@ Definition is_cb (k : cbk) (n : node) (e : event) : bool :=
 Definition fetched_ph (p : phase) : bool :=
   match p with
   | MF1 | MF2 | F1 _ | F2 _ | Pushing _ _ | Closing _ | TagP0 _ | TagP1 _ | PostP | Done | Dead
-  | MtF1 | MtF2 | MtC | MountedP => true
+  | MtF1 | MtF2 | MtC => true
   | _ => false
   end.
 Definition pushed_ph (p : phase) : bool :=
   match p with
   | Pushing _ _ | Closing _ | TagP0 _ | TagP1 _ | PostP | Done | Dead
-  | MtPre | MtF1 | MtF2 | MtC | MountedP => true
+  | MtPre | MtF1 | MtF2 | MtC => true
   | _ => false
   end.
 Definition prepast_ph (p : phase) : bool :=
   match p with
   | Rdy _ | F1 _ | F2 _ | Pushing _ _ | Closing _ | TagP0 _ | TagP1 _ | PostP | Done | Dead
   | MtPre | MtF1 | MtF2 | MtC | MountedP => true
+  | _ => false
+  end.
+(* OnMounted is invoked at most once: afterwards the node is done, or (the root of Copy) being tagged *)
+Definition mountedpast_ph (p : phase) : bool :=
+  match p with
+  | TagP0 true | TagP1 true | Rdy true | F1 true | F2 true | Pushing true _ | Closing true | Done | Dead => true
   | _ => false
   end.
 (* MountFrom is asked at most once: everything after Waiting *)
@@ -196,6 +202,8 @@ Proof. closed_set_tac. Qed.
 Lemma skippast_closed : closed_set skippast_ph.
 Proof. closed_set_tac. Qed.
 Lemma mfpast_closed : closed_set mfpast_ph.
+Proof. closed_set_tac. Qed.
+Lemma mountedpast_closed : closed_set mountedpast_ph.
 Proof. closed_set_tac. Qed.
 
 (* an event on node n moves n from outside the set into it *)
@@ -250,8 +258,8 @@ Proof.
     + intros s e s' Hs Hd. eapply skippast_closed; eauto.
     + enters_tac.
     + blocks_tac.
-  - refine (proj1 (one_shot g c (is_cb CMounted n) (fun s => postpast_ph (ph s n) = true) _ _ _ tr st st' H)).
-    + intros s e s' Hs Hd. eapply postpast_closed; eauto.
+  - refine (proj1 (one_shot g c (is_cb CMounted n) (fun s => mountedpast_ph (ph s n) = true) _ _ _ tr st st' H)).
+    + intros s e s' Hs Hd. eapply mountedpast_closed; eauto.
     + enters_tac.
     + blocks_tac.
   - refine (proj1 (one_shot g c (is_cb CMountFrom n) (fun s => mfpast_ph (ph s n) = true) _ _ _ tr st st' H)).
@@ -306,7 +314,8 @@ Definition notified (x : node) (tr : list event) : Prop :=
 
 Definition NInv (hist : list event) (st : state) : Prop :=
   (forall x, ph st x = Done -> notified x hist \/ root_refpush c x = true) /\
-  (forall x, ph st x = TagP0 true \/ ph st x = TagP1 true -> In (Cb CSkip x) hist).
+  (forall x, ph st x = TagP0 true \/ ph st x = TagP1 true ->
+             In (Cb CSkip x) hist \/ In (Cb CMounted x) hist).
 
 Lemma notified_app x h e : notified x h -> notified x (h ++ [e]).
 Proof. intros [H|[H|H]]; [left|right;left|right;right]; apply in_or_app; auto. Qed.
@@ -324,15 +333,18 @@ Proof.
     first [ left; left; apply in_or_app; right; left; reflexivity
           | left; right; left; apply in_or_app; right; left; reflexivity
           | left; right; right; apply in_or_app; right; left; reflexivity
-          | left; right; left; apply in_or_app; left; apply N2; solve [auto]
+          | destruct (N2 n) as [N3|N3]; [solve [auto] | |];
+            [left; right; left | left; right; right]; apply in_or_app; left; exact N3
           | right; apply (i_skflag g c d0 st I); old_ph; reflexivity ].
   - intros x Hx.
-    assert (Old : ph st x = TagP0 true \/ ph st x = TagP1 true -> In (Cb CSkip x) (hist ++ [e])).
-    { intro Hd. apply in_or_app. left. auto. }
+    assert (Old : ph st x = TagP0 true \/ ph st x = TagP1 true ->
+                  In (Cb CSkip x) (hist ++ [e]) \/ In (Cb CMounted x) (hist ++ [e])).
+    { intro Hd. destruct (N2 x Hd); [left|right]; apply in_or_app; left; auto. }
     step_inv H; simp_st; try (now apply Old);
     (upd_cases x n; [| now apply Old]);
     destruct Hx as [Hx|Hx]; split_ifs_in Hx; try discriminate Hx;
-    first [ apply in_or_app; right; left; reflexivity
+    first [ left; apply in_or_app; right; left; reflexivity
+          | right; apply in_or_app; right; left; reflexivity
           | injection Hx as ->; apply Old; solve [auto] ].
 Qed.
 
@@ -719,10 +731,14 @@ End PushOrder.
 (* ------------------------------------------------------------------ mounted nodes *)
 
 Definition mounted_ph (p : phase) : bool :=
-  match p with MountedP | Done | Dead => true | _ => false end.
+  match p with MountedP => true | p => mountedpast_ph p end.
 
 Lemma mounted_closed : closed_set mounted_ph.
 Proof. closed_set_tac. Qed.
+
+(* after OnMounted returned nil *)
+Definition aftercb_ph (p : phase) : bool :=
+  match p with Dead => false | p => mountedpast_ph p end.
 
 Section Mounted.
 Variable g : graph.
@@ -731,7 +747,7 @@ Variable d0 : list node.
 
 Definition MInv (h : list event) (st : state) : Prop :=
   forall n, In (MtE n MMounted) h ->
-    mounted_ph (ph st n) = true /\ (ph st n = Done -> In (Cb CMounted n) h).
+    mounted_ph (ph st n) = true /\ (aftercb_ph (ph st n) = true -> In (Cb CMounted n) h).
 
 Lemma step_mounted st n st' : step g c st (MtE n MMounted) = Some st' -> ph st' n = MountedP.
 Proof.
@@ -741,15 +757,18 @@ Proof.
   intro H. injection H as <-. simpl. apply upd_same.
 Qed.
 
-Lemma step_to_done_mounted st e st' n : step g c st e = Some st' -> ph st' n = Done ->
-  ph st n <> Done -> mounted_ph (ph st n) = true -> e = Cb CMounted n.
+(* a mounted node gets past OnMounted only by OnMounted *)
+Lemma step_aftercb st e st' n : step g c st e = Some st' ->
+  mounted_ph (ph st n) = true -> aftercb_ph (ph st' n) = true ->
+  aftercb_ph (ph st n) = true \/ e = Cb CMounted n.
 Proof.
-  intros H Hd Hn Hp.
-  step_inv H; simp_st; try congruence;
-  (upd_cases n n0; [| congruence]);
-  repeat match goal with Hq : ph st _ = _ |- _ => try rewrite Hq in Hp; clear Hq end;
-  simpl in Hp; try discriminate Hp; try reflexivity;
-  split_ifs_in Hd; try discriminate Hd; try discriminate Hp.
+  intros H Hp Ha.
+  step_inv H; simp_st; auto;
+  (upd_cases n n0; [| auto]);
+  repeat match goal with Hq : ph st _ = _ |- _ => try rewrite Hq in Hp; try rewrite Hq; clear Hq end;
+  simpl in Hp; try discriminate Hp; auto;
+  repeat match type of Hp with context [if ?x then _ else _] => destruct x end;
+  try discriminate Hp; simpl; auto.
 Qed.
 
 Lemma minv_step h st e st' : MInv h st -> step g c st e = Some st' -> MInv (h ++ [e]) st'.
@@ -757,9 +776,8 @@ Proof.
   intros M H n Hn. apply in_app_iff in Hn as [Hn|[Hn|[]]].
   - destruct (M n Hn) as [M1 M2]. split.
     + eapply mounted_closed; eauto.
-    + intro Hd. apply in_app_iff.
-      destruct (phase_eq_done (ph st n)) as [Hq|Hq]; [left; auto|].
-      right. left. exact (step_to_done_mounted st e st' n H Hd Hq M1).
+    + intro Ha. apply in_app_iff.
+      destruct (step_aftercb st e st' n H M1 Ha) as [Hq| ->]; [left; auto | right; left; reflexivity].
   - subst e. rewrite (step_mounted st n st' H). split; [reflexivity|discriminate].
 Qed.
 
@@ -789,8 +807,8 @@ Proof.
   assert (Hd : ph st n = Done).
   { destruct (ph st n); simpl in *; try discriminate; reflexivity. }
   pose proof (cb_once g c CMounted n tr _ _ Ha) as L.
-  assert (G1 : 1 <= cnt (is_cb CMounted n) tr)
-    by (eapply cnt_ge1; [exact (M2 Hd) | simpl; now rewrite Nat.eqb_refl]).
+  assert (G1 : 1 <= cnt (is_cb CMounted n) tr).
+  { eapply cnt_ge1; [apply M2; rewrite Hd; reflexivity | simpl; now rewrite Nat.eqb_refl]. }
   lia.
 Qed.
 End Mounted.
